@@ -66,13 +66,40 @@ Proof. apply filter_app. Qed.
 (* invariant: cached and held objects are distinct blocks the allocator has already issued;
    the live objects are exactly those *)
 
-Definition mp_inv (w : mp_world) : Prop :=
+Definition mp_core (w : mp_world) : Prop :=
   NoDup (mp_stack (w_pool w) ++ w_held w) /\
   (forall x, In x (mp_stack (w_pool w) ++ w_held w) -> 0 < x < mp_nextid (w_pool w)) /\
   0 < mp_nextid (w_pool w) /\
   mp_stacklen (w_pool w) <= mp_allocsize (w_pool w) /\
   mp_slots (w_pool w) = mp_allocsize (w_pool w) /\ 0 < mp_allocsize (w_pool w) /\
   Permutation (w_live w) (mp_stack (w_pool w) ++ w_held w).
+
+(* the exit handler is registered (M->state = 1, set together with the atexit() call) as soon as
+   the underlying allocator has been asked for anything: a pool whose handler is not registered
+   has never obtained a block - no object, no stack *)
+Definition mp_reg (w : mp_world) : Prop :=
+  mp_state (w_pool w) = 1 \/
+  (mp_state (w_pool w) = 0 /\ mp_nextid (w_pool w) = 1 /\ mp_static (w_pool w) = true).
+
+Definition mp_inv (w : mp_world) : Prop := mp_core w /\ mp_reg w.
+
+(* hence: anything cached, held or live, or an allocated stack -> the handler is registered *)
+Lemma mp_inv_registered w :
+  mp_inv w ->
+  (mp_stack (w_pool w) <> [] \/ w_held w <> [] \/ w_live w <> [] \/
+   mp_static (w_pool w) = false \/ mp_nextid (w_pool w) <> 1) ->
+  mp_state (w_pool w) = 1.
+Proof.
+  intros ((Hnd & Hrg & Hnx & Hsl & Hslots & Hpos & Hlive) & [H1|(H0 & Hn & Hs)]) Hused; [exact H1|].
+  exfalso.
+  assert (Hempty : mp_stack (w_pool w) ++ w_held w = []).
+  { destruct (mp_stack (w_pool w) ++ w_held w) as [|x l] eqn:E; [reflexivity|].
+    specialize (Hrg x (or_introl eq_refl)). lia. }
+  apply app_eq_nil in Hempty. destruct Hempty as [E1 E2].
+  destruct Hused as [H|[H|[H|[H|H]]]]; try contradiction.
+  - rewrite E1, E2 in Hlive. apply Permutation_sym, Permutation_nil in Hlive. contradiction.
+  - rewrite Hs in H. discriminate.
+Qed.
 
 Definition mp_count (w : mp_world) : N := N.of_nat (length (mp_stack (w_pool w)) + length (w_held w)).
 
@@ -92,7 +119,7 @@ Qed.
 
 (* what one step guarantees *)
 Definition mp_post (op : mp_op) (w : mp_world) (x : mp_out) (w' : mp_world) : Prop :=
-  mp_inv w' /\
+  mp_core w' /\
   (* no double handout: what malloc returns is NULL or not among the objects the client holds *)
   (forall p reg, x = POut p reg -> p = 0 \/ ~ In p (w_held w)) /\
   (* the client's objects afterwards; malloc returns a pointer, free returns nothing *)
@@ -107,7 +134,7 @@ Section Steps.
   Variables shift olen : N.
 
   Lemma mp_malloc_step w o :
-    mp_inv w ->
+    mp_core w ->
     exists x w' o' ev,
       mp_step shift 2 8 olen PMalloc w o = Ok (x, w', o', ev) /\ mp_post PMalloc w x w'.
   Proof.
@@ -122,7 +149,7 @@ Section Steps.
         cbn [negb]. eexists _, _, _, _. split; [reflexivity|].
         assert (Hfresh : ~ In (mp_nextid (w_pool w)) (w_held w)).
         { intros Hin. specialize (Hrg _ (in_or_app _ _ _ (or_intror Hin))). lia. }
-        unfold mp_post, mp_inv, mp_count, mp_stacklen in *;
+        unfold mp_post, mp_core, mp_count, mp_stacklen in *;
           cbn [w_pool w_held w_live mp_stack mp_allocsize mp_slots mp_nextid app length] in *.
         split; [|split; [|split; [|split]]].
         * split; [|split; [|split; [|split; [|split; [|split]]]]]; try assumption; try lia.
@@ -138,7 +165,7 @@ Section Steps.
       + (* refused: NULL *)
         cbn [N.eqb]. rewrite N.eqb_refl. cbn [negb].
         eexists _, _, _, _. split; [reflexivity|].
-        unfold mp_post, mp_inv, mp_count, mp_stacklen in *;
+        unfold mp_post, mp_core, mp_count, mp_stacklen in *;
           cbn [w_pool w_held w_live mp_stack mp_allocsize mp_slots mp_nextid app length] in *.
         split; [|split; [|split; [|split]]].
         * repeat split; try assumption; try lia; apply Hrg; assumption.
@@ -155,7 +182,7 @@ Section Steps.
       eexists _, _, _, _. split; [reflexivity|].
       assert (Hperm : Permutation (p :: r ++ w_held w) (r ++ w_held w ++ [p])).
       { rewrite app_assoc. apply Permutation_cons_append. }
-      unfold mp_post, mp_inv, mp_count, mp_stacklen;
+      unfold mp_post, mp_core, mp_count, mp_stacklen;
         cbn [w_pool w_held w_live mp_stack mp_allocsize mp_slots mp_nextid app length].
       split; [|split; [|split; [|split]]].
       * split; [|split; [|split; [|split; [|split; [|split]]]]]; try assumption; try lia.
@@ -176,7 +203,7 @@ Section Steps.
   Qed.
 
   Lemma mp_free_step w o k :
-    mp_inv w -> mp_allocsize (w_pool w) * 16 < W64 ->
+    mp_core w -> mp_allocsize (w_pool w) * 16 < W64 ->
     exists x w' o' ev,
       mp_step shift 2 8 olen (PFree k) w o = Ok (x, w', o', ev) /\ mp_post (PFree k) w x w'.
   Proof.
@@ -210,7 +237,7 @@ Section Steps.
       unfold mp_push, mp_stacklen. rewrite Hslots.
       destruct (N.ltb_spec (N.of_nat (length (mp_stack (w_pool w)))) (mp_allocsize (w_pool w))); [|lia].
       cbn [bind]. eexists _, _, _, _. split; [reflexivity|].
-      unfold mp_post, mp_inv, mp_count, mp_stacklen;
+      unfold mp_post, mp_core, mp_count, mp_stacklen;
         cbn [w_pool w_held w_live mp_stack mp_allocsize mp_slots mp_nextid app length].
       rewrite remove_ids_nil.
       split; [|split; [discriminate|split; [split; reflexivity|split; [left; reflexivity|]]]].
@@ -235,7 +262,7 @@ Section Steps.
           replace (mp_allocsize (w_pool w) * 16 / 8) with (mp_allocsize (w_pool w) * 2) by lia.
           destruct (N.ltb_spec (N.of_nat (length (mp_stack (w_pool w)))) (mp_allocsize (w_pool w) * 2)); [|lia].
           cbn [bind]. eexists _, _, _, _. split; [reflexivity|].
-          unfold mp_post, mp_inv, mp_count, mp_stacklen, mp_reset_stats;
+          unfold mp_post, mp_core, mp_count, mp_stacklen, mp_reset_stats;
             cbn [w_pool w_held w_live mp_stack mp_allocsize mp_slots mp_nextid app length].
           rewrite remove_ids_nil.
           split; [|split; [discriminate|split; [split; reflexivity|split; [right; split; lia|]]]].
@@ -245,7 +272,7 @@ Section Steps.
           -- apply Permutation_length in Hk. cbn [length] in Hk. fold held'. lia.
         * (* the new stack is refused: the object goes back to free() *)
           eexists _, _, _, _. split; [reflexivity|].
-          unfold mp_post, mp_inv, mp_count, mp_stacklen, mp_reset_stats;
+          unfold mp_post, mp_core, mp_count, mp_stacklen, mp_reset_stats;
             cbn [w_pool w_held w_live mp_stack mp_allocsize mp_slots mp_nextid app length].
           split; [|split; [discriminate|split; [split; reflexivity|split; [left; reflexivity|]]]].
           -- split; [inversion Hnd'; assumption|].
@@ -254,7 +281,7 @@ Section Steps.
           -- apply Permutation_length in Hk. cbn [length] in Hk. fold held'. lia.
       + (* no doubling: the object goes back to free() *)
         eexists _, _, _, _. split; [reflexivity|].
-        unfold mp_post, mp_inv, mp_count, mp_stacklen, mp_reset_stats;
+        unfold mp_post, mp_core, mp_count, mp_stacklen, mp_reset_stats;
           cbn [w_pool w_held w_live mp_stack mp_allocsize mp_slots mp_nextid app length].
         split; [|split; [discriminate|split; [split; reflexivity|split; [left; reflexivity|]]]].
         * split; [inversion Hnd'; assumption|].
@@ -264,7 +291,7 @@ Section Steps.
   Qed.
 
   Lemma mp_freenull_step w o :
-    mp_inv w ->
+    mp_core w ->
     exists x w' o' ev,
       mp_step shift 2 8 olen PFreeNull w o = Ok (x, w', o', ev) /\ mp_post PFreeNull w x w'.
   Proof.
@@ -276,7 +303,7 @@ Section Steps.
 
   (* C12 M5 (one step) *)
   Theorem mp_step_ok op w o :
-    mp_inv w -> mp_allocsize (w_pool w) * 16 < W64 ->
+    mp_core w -> mp_allocsize (w_pool w) * 16 < W64 ->
     exists x w' o' ev, mp_step shift 2 8 olen op w o = Ok (x, w', o', ev) /\ mp_post op w x w'.
   Proof.
     intros Hinv Hbig. destruct op.
@@ -285,6 +312,67 @@ Section Steps.
     - apply mp_freenull_step; assumption.
   Qed.
 End Steps.
+
+(* ------------------------------------------------------------------ *)
+(* registration of the exit handler *)
+
+(* did this operation call atexit()? *)
+Definition out_reg (x : mp_out) : bool := match x with POut _ r => r | PUnit => false end.
+
+Lemma mp_free_state shift olen m p o m1 o1 ev fr :
+  mp_free shift 2 8 olen m p o = Ok (m1, o1, ev, fr) ->
+  mp_state m1 = mp_state m /\ (p = 0 -> m1 = m).
+Proof.
+  unfold mp_free, mp_push, mp_reset_stats. intros H.
+  destruct (N.eqb_spec p 0) as [Hp|Hp].
+  - inversion H; subst. split; [reflexivity|auto].
+  - split; [|intros; contradiction].
+    repeat match type of H with
+           | context [if ?c then _ else _] => destruct c; cbn [bind] in H; try discriminate
+           | context [let (_, _) := next ?o in _] => destruct (next o); cbn [bind] in H
+           end;
+    inversion H; subst; reflexivity.
+Qed.
+
+(* one step: the registration conjunct is preserved, and M->state counts the atexit() calls *)
+Lemma mp_reg_step shift olen op w o x w' o' ev :
+  mp_core w -> mp_reg w ->
+  mp_step shift 2 8 olen op w o = Ok (x, w', o', ev) ->
+  mp_reg w' /\
+  mp_state (w_pool w') = mp_state (w_pool w) + (if out_reg x then 1 else 0).
+Proof.
+  intros (Hnd & Hrg & Hnx & Hsl & Hslots & Hpos & Hlive) Hreg Hs.
+  destruct op; cbn [mp_step] in Hs.
+  - (* malloc *)
+    unfold mp_malloc in Hs. destruct (mp_stack (w_pool w)) as [|p r] eqn:Est.
+    + destruct (next o) as [ok o1]. cbn [bind] in Hs. inversion Hs; subst; clear Hs.
+      unfold mp_reg; cbn [w_pool mp_state mp_nextid mp_static out_reg].
+      destruct Hreg as [H1|(H0 & Hn & Hst)].
+      * rewrite H1. cbn. split; [left|]; reflexivity.
+      * rewrite H0. cbn. split; [left|]; reflexivity.
+    + destruct (mp_slots (w_pool w) <? mp_stacklen (w_pool w)); [discriminate|].
+      cbn [bind] in Hs. inversion Hs; subst; clear Hs.
+      unfold mp_reg; cbn [w_pool mp_state mp_nextid mp_static out_reg].
+      rewrite N.add_0_r. split; [|reflexivity].
+      destruct Hreg as [H1|(H0 & Hn & Hst)]; [left; exact H1|].
+      exfalso. specialize (Hrg p (or_introl eq_refl)). lia.
+  - (* free of a held object *)
+    destruct (nth_error (w_held w) (N.to_nat k)) as [p|] eqn:Ek.
+    2:{ inversion Hs; subst. cbn [out_reg]. rewrite N.add_0_r. split; [exact Hreg|reflexivity]. }
+    assert (Hp : 0 < p < mp_nextid (w_pool w)).
+    { apply Hrg. apply in_or_app. right. eapply nth_error_In. exact Ek. }
+    destruct (mp_free shift 2 8 olen (w_pool w) p o) as [[[[m1 o1] ev1] fr]| | |] eqn:Ef;
+      cbn [bind] in Hs; try discriminate.
+    inversion Hs; subst; clear Hs. apply mp_free_state in Ef. destruct Ef as [Est _].
+    unfold mp_reg; cbn [w_pool out_reg]. rewrite N.add_0_r, Est. split; [|reflexivity].
+    destruct Hreg as [H1|(H0 & Hn & Hst)]; [left; exact H1|lia].
+  - (* free(NULL) *)
+    destruct (mp_free shift 2 8 olen (w_pool w) 0 o) as [[[[m1 o1] ev1] fr]| | |] eqn:Ef;
+      cbn [bind] in Hs; try discriminate.
+    inversion Hs; subst; clear Hs. apply mp_free_state in Ef. destruct Ef as [_ Em].
+    rewrite (Em eq_refl). unfold mp_reg; cbn [w_pool out_reg]. rewrite N.add_0_r.
+    split; [exact Hreg|reflexivity].
+Qed.
 
 
 (* ------------------------------------------------------------------ *)
@@ -296,8 +384,10 @@ Definition out_ptr (x : mp_out) : N := match x with POut p _ => p | PUnit => 0 e
 
 Lemma mp_new_inv size : 0 < size -> mp_inv (mp_world0 size).
 Proof.
-  intros H. unfold mp_inv, mp_world0, mp_new, mp_stacklen; cbn.
-  repeat split; try lia; try constructor; try (intros x []); try (destruct H0).
+  intros H. split.
+  - unfold mp_core, mp_world0, mp_new, mp_stacklen; cbn.
+    repeat split; try lia; try constructor; try (intros x []); try (destruct H0).
+  - right. cbn. repeat split.
 Qed.
 
 (* C12 M5: for every program on a pool created with [size] > 0 (short enough for the stack's byte
@@ -311,11 +401,13 @@ Theorem mp_run_ok shift olen size ops : forall w o k,
     Forall (fun t => mp_inv (ptr_w t)) tr /\
     mp_spec_ok ops (map (fun t => out_ptr (ptr_out t)) tr) (w_held w) = true.
 Proof.
-  induction ops as [|op ops IH]; intros w o k Hinv Hcnt Hsz Hbig.
+  induction ops as [|op ops IH]; intros w o k [Hinv Hreg] Hcnt Hsz Hbig.
   - exists []. repeat split. constructor.
   - cbn [length] in Hbig.
     assert (Hb1 : mp_allocsize (w_pool w) * 16 < W64) by lia.
-    destruct (mp_step_ok shift olen op w o Hinv Hb1) as (x & w1 & o1 & ev & Hs & Hinv1 & Hho & (Hheld & Hshape) & Hal & Hc1).
+    destruct (mp_step_ok shift olen op w o Hinv Hb1) as (x & w1 & o1 & ev & Hs & Hcore1 & Hho & (Hheld & Hshape) & Hal & Hc1).
+    destruct (mp_reg_step shift olen op w o x w1 o1 ev Hinv Hreg Hs) as [Hreg1 _].
+    assert (Hinv1 : mp_inv w1) by (split; assumption).
     assert (A1 : mp_count w1 <= k + 1) by lia.
     assert (A2 : mp_allocsize (w_pool w1) <= N.max size (2 * (k + 1))).
     { destruct Hal as [->|(-> & Heq)]; [lia|]. unfold mp_count in Hcnt. unfold mp_stacklen in Heq. lia. }
@@ -364,7 +456,7 @@ Theorem mp_atexit_frees_all psz olen w :
   ev = map (fun _ => AFree olen) (mp_stack (w_pool w)) ++
        (if mp_static (w_pool w) then [] else [AFree (mp_slots (w_pool w) * psz)]).
 Proof.
-  intros (Hnd & Hrg & Hnx & Hsl & Hslots & Hpos & Hlive). unfold mp_atexit.
+  intros ((Hnd & Hrg & Hnx & Hsl & Hslots & Hpos & Hlive) & _). unfold mp_atexit.
   split; [reflexivity|]. split; [reflexivity|]. split; [|reflexivity].
   eapply Permutation_trans; [apply remove_ids_perm, Hlive|].
   rewrite remove_ids_app, remove_ids_all. cbn [app].
@@ -373,6 +465,164 @@ Proof.
   induction (mp_stack (w_pool w)) as [|y l IH]; [destruct Hin'|].
   cbn [app] in Hnd. inversion Hnd as [|? ? Hnotin Hnd']; subst.
   destruct Hin' as [->|Hin']; [apply Hnotin; apply in_or_app; right; exact Hin|auto].
+Qed.
+
+(* ------------------------------------------------------------------ *)
+(* the exit handler is registered in time, exactly once, and returns everything *)
+
+(* number of atexit() calls made during a trace *)
+Definition reg_calls (tr : list (mp_out * mp_world * list aev)) : N :=
+  N.of_nat (length (filter (fun t => out_reg (ptr_out t)) tr)).
+
+Lemma reg_calls_cons t tr :
+  reg_calls (t :: tr) = (if out_reg (ptr_out t) then 1 else 0) + reg_calls tr.
+Proof. unfold reg_calls. cbn [filter]. destruct (out_reg (ptr_out t)); cbn [length]; lia. Qed.
+
+Lemma mp_state_01 w : mp_inv w -> mp_state (w_pool w) = 0 \/ mp_state (w_pool w) = 1.
+Proof. intros [_ [H|(H & _)]]; auto. Qed.
+
+Lemma mp_run_cons_inv shift olen op ops w o tr :
+  mp_run shift 2 8 olen (op :: ops) w o = Ok tr ->
+  exists x w1 o1 ev tr',
+    mp_step shift 2 8 olen op w o = Ok (x, w1, o1, ev) /\
+    mp_run shift 2 8 olen ops w1 o1 = Ok tr' /\ tr = (x, w1, ev) :: tr'.
+Proof.
+  cbn [mp_run]. intros H.
+  destruct (mp_step shift 2 8 olen op w o) as [[[[x w1] o1] ev]| | |]; cbn [bind] in H; try discriminate.
+  destruct (mp_run shift 2 8 olen ops w1 o1) as [tr'| | |] eqn:Er; cbn [bind] in H; try discriminate.
+  inversion H; subst. exists x, w1, o1, ev, tr'. split; [reflexivity|]. split; [exact Er|reflexivity].
+Qed.
+
+(* along any run whose states satisfy the invariant: after every operation M->state is the state
+   at the start plus the number of atexit() calls so far, and it is 1 from the first operation
+   that returned an object on *)
+Lemma mp_run_states shift olen : forall ops w o tr,
+  mp_inv w ->
+  mp_run shift 2 8 olen ops w o = Ok tr ->
+  Forall (fun t => mp_inv (ptr_w t)) tr ->
+  forall pre t post, tr = pre ++ t :: post ->
+    mp_state (w_pool (ptr_w t)) = mp_state (w_pool w) + reg_calls (pre ++ [t]) /\
+    ((exists t', In t' (pre ++ [t]) /\ out_ptr (ptr_out t') <> 0) -> mp_state (w_pool (ptr_w t)) = 1).
+Proof.
+  induction ops as [|op ops IH]; intros w o tr Hinv Hr Hall pre t post Htr.
+  - cbn in Hr. inversion Hr; subst. destruct pre; discriminate.
+  - apply mp_run_cons_inv in Hr. destruct Hr as (x & w1 & o1 & ev & tr' & Hs & Hr' & ->).
+    inversion Hall as [|? ? Hinv1 Hall']; subst. cbn [ptr_w fst snd] in Hinv1.
+    destruct Hinv as [Hcore Hreg].
+    destruct (mp_reg_step shift olen op w o x w1 o1 ev Hcore Hreg Hs) as [_ Hst].
+    (* an object returned by this very operation -> registered *)
+    assert (Hnow : out_ptr x <> 0 -> mp_state (w_pool w1) = 1).
+    { intros Hx. apply mp_inv_registered; [exact Hinv1|]. right. left.
+      destruct op; cbn [mp_step] in Hs.
+      - destruct (mp_malloc olen (w_pool w) o) as [[[[[p reg] m1] o2] ev2]| | |]; cbn [bind] in Hs;
+          try discriminate.
+        inversion Hs; subst. cbn [out_ptr] in Hx. cbn [w_held].
+        destruct (N.eqb_spec p 0); [contradiction|]. intros E. apply app_eq_nil in E. destruct E; discriminate.
+      - exfalso. apply Hx. destruct (nth_error (w_held w) (N.to_nat k)).
+        + destruct (mp_free shift 2 8 olen (w_pool w) n o) as [[[[? ?] ?] ?]| | |]; cbn [bind] in Hs;
+            try discriminate. inversion Hs; reflexivity.
+        + inversion Hs; reflexivity.
+      - exfalso. apply Hx.
+        destruct (mp_free shift 2 8 olen (w_pool w) 0 o) as [[[[? ?] ?] ?]| | |]; cbn [bind] in Hs;
+          try discriminate. inversion Hs; reflexivity. }
+    destruct pre as [|t0 pre].
+    + cbn [app] in Htr. inversion Htr; subst. cbn [ptr_w fst snd app].
+      rewrite reg_calls_cons. unfold reg_calls at 1. cbn [filter length ptr_out fst].
+      split; [rewrite Hst; lia|].
+      intros (t' & [<-|[]] & Hp). apply Hnow. exact Hp.
+    + cbn [app] in Htr. inversion Htr; subst.
+      destruct (IH w1 o1 _ Hinv1 Hr' Hall' pre t post eq_refl) as [Heq Hex].
+      assert (Ht : mp_inv (ptr_w t)).
+      { rewrite Forall_forall in Hall'. apply Hall'. apply in_or_app. right. left. reflexivity. }
+      pose proof (mp_state_01 _ Ht) as H01.
+      cbn [app]. rewrite reg_calls_cons. cbn [ptr_out fst].
+      split; [rewrite Heq, Hst; lia|].
+      intros (t' & [<-|Hin] & Hp).
+      * cbn [ptr_out fst] in Hp. specialize (Hnow Hp). lia.
+      * apply Hex. exists t'. split; assumption.
+Qed.
+
+(* C12 M5 (registration): for every program on a pool created by MPOOL(name, type, size), under
+   every oracle: after every operation the invariant holds (so: anything cached, held or live ->
+   M->state = 1), the number of atexit() calls made so far equals M->state (0 or 1: the handler is
+   registered at most once), and from the first malloc that returned an object on it is 1 *)
+Theorem mp_exit_handler_registered shift olen size ops o :
+  0 < size -> N.max size (2 * N.of_nat (length ops)) * 16 < W64 ->
+  exists tr,
+    mp_run shift 2 8 olen ops (mp_world0 size) o = Ok tr /\
+    forall pre t post, tr = pre ++ t :: post ->
+      mp_inv (ptr_w t) /\
+      reg_calls (pre ++ [t]) = mp_state (w_pool (ptr_w t)) /\
+      ((exists t', In t' (pre ++ [t]) /\ out_ptr (ptr_out t') <> 0) -> reg_calls (pre ++ [t]) = 1).
+Proof.
+  intros Hs Hbig.
+  destruct (mp_run_ok shift olen size ops (mp_world0 size) o 0) as (tr & Hr & Hall & _).
+  - apply mp_new_inv. exact Hs.
+  - cbn. lia.
+  - cbn. lia.
+  - exact Hbig.
+  - exists tr. split; [exact Hr|]. intros pre t post Htr.
+    destruct (mp_run_states shift olen ops _ o tr (mp_new_inv size Hs) Hr Hall pre t post Htr) as [Heq Hex].
+    cbn [mp_world0 w_pool mp_new mp_state] in Heq. rewrite N.add_0_l in Heq.
+    split; [|split].
+    + rewrite Forall_forall in Hall. apply Hall. subst tr. apply in_or_app. right. left. reflexivity.
+    + symmetry. exact Heq.
+    + intros H. rewrite <- Heq. apply Hex. exact H.
+Qed.
+
+(* the state a program ends in *)
+Definition mp_final (w0 : mp_world) (tr : list (mp_out * mp_world * list aev)) : mp_world :=
+  ptr_w (last tr (PUnit, w0, [])).
+
+(* process exit in a world satisfying the invariant: nothing stays cached, the live objects are
+   exactly those the client holds, the events are one free() per cached object plus the stack if
+   it was allocated - whether or not the handler had to be registered *)
+Lemma mp_exit_spec psz olen w :
+  mp_inv w ->
+  let '(w', ev) := mp_exit psz olen w in
+  mp_stack (w_pool w') = [] /\ w_held w' = w_held w /\
+  Permutation (w_live w') (w_held w) /\
+  ev = map (fun _ => AFree olen) (mp_stack (w_pool w)) ++
+       (if mp_static (w_pool w) then [] else [AFree (mp_slots (w_pool w) * psz)]).
+Proof.
+  intros Hinv. unfold mp_exit. destruct (N.eqb_spec (mp_state (w_pool w)) 0) as [H0|H1].
+  - (* not registered: then nothing was ever obtained from the allocator *)
+    assert (Hs : mp_stack (w_pool w) = []).
+    { destruct (mp_stack (w_pool w)) eqn:E; [reflexivity|].
+      assert (mp_state (w_pool w) = 1) by (apply mp_inv_registered; [exact Hinv|left; rewrite E; discriminate]). lia. }
+    assert (Hst : mp_static (w_pool w) = true).
+    { destruct (mp_static (w_pool w)) eqn:E; [reflexivity|].
+      assert (mp_state (w_pool w) = 1) by (apply mp_inv_registered; [exact Hinv|right; right; right; left; exact E]). lia. }
+    rewrite Hst. cbn [w_pool]. rewrite Hs. cbn [map app]. split; [reflexivity|]. split; [reflexivity|]. split; [|reflexivity].
+    destruct Hinv as ((_ & _ & _ & _ & _ & _ & Hlive) & _). rewrite Hs in Hlive. exact Hlive.
+  - pose proof (mp_atexit_frees_all psz olen w Hinv) as H.
+    destruct (mp_atexit psz olen (w_pool w)) as [[m1 ev] freed]. cbn [w_pool w_held w_live].
+    destruct H as (Hf & Hst & Hp & Hev). repeat split; assumption.
+Qed.
+
+(* C12 M5 (exit): after ANY program on a pool created by MPOOL(name, type, size), process exit -
+   the handler runs iff atexit() was called for it - returns every cached object: afterwards the
+   cache is empty and the live objects are exactly those the client still holds *)
+Theorem mp_exit_returns_all shift olen size ops o :
+  0 < size -> N.max size (2 * N.of_nat (length ops)) * 16 < W64 ->
+  exists tr,
+    mp_run shift 2 8 olen ops (mp_world0 size) o = Ok tr /\
+    let wf := mp_final (mp_world0 size) tr in
+    reg_calls tr = mp_state (w_pool wf) /\
+    let '(w', ev) := mp_exit 8 olen wf in
+    mp_stack (w_pool w') = [] /\ w_held w' = w_held wf /\
+    Permutation (w_live w') (w_held wf) /\
+    ev = map (fun _ => AFree olen) (mp_stack (w_pool wf)) ++
+         (if mp_static (w_pool wf) then [] else [AFree (mp_slots (w_pool wf) * 8)]).
+Proof.
+  intros Hs Hbig.
+  destruct (mp_exit_handler_registered shift olen size ops o Hs Hbig) as (tr & Hr & Hall).
+  exists tr. split; [exact Hr|]. cbv zeta. unfold mp_final.
+  destruct tr as [|t0 tr0] using rev_ind.
+  - cbn [last ptr_w fst snd]. split; [reflexivity|]. apply mp_exit_spec. apply mp_new_inv. exact Hs.
+  - clear IHtr0. rewrite last_last.
+    destruct (Hall tr0 t0 [] eq_refl) as (Hinv & Hcnt & _).
+    split; [exact Hcnt|]. apply mp_exit_spec. exact Hinv.
 Qed.
 
 (* ------------------------------------------------------------------ *)
@@ -396,3 +646,12 @@ Qed.
 (* the spec predicate is not trivially true: handing out object 1 twice is rejected *)
 Example pex_spec_rejects : mp_spec_ok [PMalloc; PMalloc] [1; 1] [] = false.
 Proof. reflexivity. Qed.
+
+(* a pool whose cache never overflows: the handler is registered by the very first malloc and the
+   exit returns both cached objects *)
+Example pex_exit :
+  exists tr, mp_run 8 2 8 24 [PMalloc; PMalloc; PFree 0; PFree 0] (mp_world0 4) all_grant = Ok tr /\
+             map (fun t => out_reg (ptr_out t)) tr = [true; false; false; false] /\
+             reg_calls tr = 1 /\
+             snd (mp_exit 8 24 (mp_final (mp_world0 4) tr)) = [AFree 24; AFree 24].
+Proof. eexists. split; [vm_compute; reflexivity|]. repeat split; vm_compute; reflexivity. Qed.
